@@ -144,10 +144,12 @@ def tfunLayout (cfg : Cfg) (es : InEdges) (comps : List (List (Int × G))) (real
       else if cfg.p4 == 0 && a.nodes.size > 1 then
         let m := (execSinkColoring cfg.ns a).map fun (g, _) => assignYCoords cfg.ls g
         out := out ++ [cmpG "T:phase4-sinkcoloring" m b]
+      else if cfg.p4 == 5 then
+        out := out ++ [cmpG "T:phase4-noop" (phase4Model cfg a) b]
       -- every positioner (also on one-node components, which the branches above skip): Y is `assignYCoords` of the layer
       -- heights the positioner left behind
       let b0 : G := { b with nodes := b.nodes.map fun n => { n with y := 0 } }
-      out := out ++ [cmpG "T:assignY" (pure (assignYCoords cfg.ls b0)) b]
+      if cfg.p4 != 5 then out := out ++ [cmpG "T:assignY" (pure (assignYCoords cfg.ls b0)) b]
     | _, _ => pure ()
     -- phase 5
     match stageOf c 4, stageOf c 5 with
@@ -159,7 +161,7 @@ def tfunLayout (cfg : Cfg) (es : InEdges) (comps : List (List (Int × G))) (real
     | some a, some b => out := out ++ [cmpG "T:post" (pure (postProcess a (loopsOf.getD ci []))) b]
     | _, _ => pure ()
   -- the composed model, from the raw input to the public result (small inputs, configurations with exact models)
-  if heavy && cfg.p1 ≤ 1 && cfg.p4 ≤ 4 && cfg.p5 != 3 && es.length ≤ 16 then
+  if heavy && cfg.p1 ≤ 1 && cfg.p4 ≤ 5 && cfg.p5 != 3 && es.length ≤ 16 then
     match layoutModelP (fun g => (orderWMedianP 24 g).map (·.1)) cfg es with
     | .error e => out := out ++ [("T:pipeline", false, s!"model error {e}")]
     | .ok m => out := out ++ [("T:pipeline", m == real, firstDiffOut m real)]
